@@ -12,6 +12,9 @@ Tie (harness/quad.cpp, which #includes net_model.cpp of the tree under test):
           eps/2, eps, 2 eps, stacked cells, penalty target at the placement): the entries are decided by the floor weight / max(eps, dist)
           that Quad.v and QuadFloat.v both contain; a non-finite entry of the C++ system (model finite) or a non-finite solver coordinate
           is a violation with the case line
+  CASM / CSOLVE  the same two ties with the NetModel taken from NetModel::xTopology / yTopology of a CIRCUIT whose nets have several pins on
+        one movable cell (a pin listed twice, pins aligned in one axis, all pins on one cell): the model and the oracles receive the addNet calls
+        with EVERY pin of the circuit counted (circ_convert), so a topology that merges or drops pins changes w/n, w/(n-1) and is caught
   SOLVE solveStar/solve/solveWithPenalty/solveB2B with all weights and strengths times 2, 1/4, 1024 (bitwise equal
         results) and times 2.5, 7 (within SOLVE_TOL of the coordinate span, anchored systems only)   [validated, not proved]
   PLACE Circuit::placeGlobal with weights and penalty.initialValue times 2, 1/2: every callback and the result equal;
@@ -235,8 +238,9 @@ def floats(hexes):
     return [struct.unpack("<f", struct.pack("<I", int(h, 16)))[0] for h in hexes.split()]
 
 
-def anchored(b):
-    """every movable cell is tied (through nets) to a fixed pin or carries a penalty: the system is non-singular without the regulariser"""
+def anchored(b, touched_only=False):
+    """every movable cell is tied (through nets) to a fixed pin or carries a penalty: the system is non-singular without the regulariser
+    (touched_only: cells no net touches are left out -- the fixed cells of a circuit are such unknowns of its NetModel, x = 0 by the regulariser)"""
     if b["pen"] and all(s > 0 for _, s in b["pen"][1]):
         return True
     par = list(range(b["nc"] + 1))            # node nc = "fixed"
@@ -251,7 +255,8 @@ def anchored(b):
         ids = [p[0] if p[0] >= 0 else b["nc"] for p in pins]
         for i in ids[1:]:
             par[find(i)] = find(ids[0])
-    return all(find(c) == find(b["nc"]) for c in range(b["nc"]))
+    touched = {p[0] for _, pins in netmodel_pins(b) for p in pins}
+    return all(find(c) == find(b["nc"]) for c in range(b["nc"]) if not touched_only or c in touched)
 
 
 def f32(x):
@@ -753,7 +758,7 @@ def ls_residual(b, tol, xs):
     return n2(red), bound, n2(rhs), len(stars)
 
 
-def check_solve(lines, impl, stats, ctx=None):
+def check_solve(lines, impl, stats, ctx=None, circ=False):
     bad = []
     for l, i in zip(lines, impl):
         toks = l.split()
@@ -792,7 +797,7 @@ def check_solve(lines, impl, stats, ctx=None):
                                "normal equations (star points eliminated) has norm %g > %g = (1 + sqrt(%d stars)) (tol %g * |rhs| %g + %d * 2^-24 * | |A||x| + |rhs| |)"
                             % (xs0[:8], res, bound, nstar, float(tol), nrhs, LS_ULPS)))
                 continue
-            if anchored(b) and nrhs > 0 and xs0:
+            if (anchored(b) or (circ and anchored(b, True) and any(c == 0 for _, pins in netmodel_pins(b) for c, _ in pins))) and nrhs > 0 and xs0:
                 # discrimination: the same solution with cell 0 moved by 1 % of the coordinate span must be REJECTED by the oracle
                 pert = list(xs0); pert[0] = f32(pert[0] + 0.01 * float(2 * pmax(b)))
                 r2, b2, _, _ = ls_residual(b, tol, pert)
@@ -960,6 +965,108 @@ def check_placecb(lines, impl, stats):
     return bad
 
 
+# ---------------------------------------------------------------- net models built from a CIRCUIT (CASM / CSOLVE lines of harness/quad.cpp)
+# The harness builds a Circuit and takes the NetModel from NetModel::xTopology / yTopology (the path Circuit::placeGlobal uses).  What
+# that net model must be is restated here from the circuit alone (trusted Python glue, a few lines): ONE ENTRY PER PIN of the circuit --
+# a pin of a movable cell gives (cell, offset - placed size / 2), the pins of fixed cells give the extent [min, max] of their positions
+# clamped to the placement area (bounding box of the rows) -- and the resulting addNet calls are the ASM / SOLVE line handed to the
+# extracted Coq model (Quad.v) and to the oracles (normal equations, least-squares residual).  N orientation (the default) only.
+N_CASM_Q, N_CSOLVE_Q = 2500, 700
+
+
+def qtok(v):
+    v = Fraction(v)
+    e = v.denominator.bit_length() - 1
+    assert v.denominator == 1 << e
+    return "%d %d" % (v.numerator, e)
+
+
+def circ_convert(line, stats=None):
+    """CASM / CSOLVE case line -> the ASM / SOLVE line whose addNet calls are what x/yTopology must produce (every pin counted)"""
+    t = line.split()
+    r = Rd(t[1:])
+    head = []
+    if t[0] == "CSOLVE":
+        head = [str(r.nx()) for _ in range(4)]                    # kind tolN tolE maxit
+    axis, mode = r.nx(), r.nx()
+    eps = (r.nx(), r.nx())
+    W, nrows, rowh, ox, oy, nc = (r.nx() for _ in range(6))
+    cells = [tuple(r.nx() for _ in range(5)) for _ in range(nc)]   # w h fixed x y
+    amin, amax = (ox, ox + W) if axis == 0 else (oy, oy + nrows * rowh)
+    out = [str(mode), str(nc), "%d %d" % eps]
+    nets = []
+    for _ in range(r.nx()):
+        npins = r.nx(); w = (r.nx(), r.nx())
+        pins = [(r.nx(), r.nx(), r.nx()) for _ in range(npins)]
+        mov, fixed = [], []
+        for c, xo, yo in pins:
+            cw, chh, fx, x, y = cells[c]
+            off, size, base = (xo, cw, x) if axis == 0 else (yo, chh, y)
+            if fx:
+                fixed.append(base + off)
+            else:
+                mov.append((c, Fraction(off) - Fraction(size, 2)))
+        s = "%d %d %d" % (len(mov), w[0], w[1]) + "".join(" %d %s" % (c, qtok(o)) for c, o in mov)
+        if fixed:
+            s += " 1 %s %s" % (qtok(max(min(fixed), amin)), qtok(min(max(fixed), amax)))
+        else:
+            s += " 0"
+        nets.append(s)
+        if stats is not None:
+            st = stats
+            st["nets"] = st.get("nets", 0) + 1
+            mc = [c for c, _, _ in pins if not cells[c][2]]
+            same = len(set(mov)) < len(mov)
+            ident = len({p for p in pins if not cells[p[0]][2]}) < len(mc)
+            st["nets_with_two_pins_of_one_movable_cell"] = st.get("nets_with_two_pins_of_one_movable_cell", 0) + (len(set(mc)) < len(mc))
+            st["nets_with_a_movable_pin_listed_twice"] = st.get("nets_with_a_movable_pin_listed_twice", 0) + ident
+            st["nets_with_pins_of_one_cell_coinciding_in_this_axis_only"] = st.get("nets_with_pins_of_one_cell_coinciding_in_this_axis_only", 0) + (same and not ident)
+            st["nets_with_pins_of_one_cell_coinciding_in_this_axis"] = st.get("nets_with_pins_of_one_cell_coinciding_in_this_axis", 0) + same
+            st["nets_all_on_one_movable_cell"] = st.get("nets_all_on_one_movable_cell", 0) + (not fixed and len(set(mc)) == 1 and len(mc) >= 2)
+            st["nets_all_on_one_movable_cell_3plus_pins"] = st.get("nets_all_on_one_movable_cell_3plus_pins", 0) + (not fixed and len(set(mc)) == 1 and len(mc) >= 3)
+            st["nets_with_fixed_pins"] = st.get("nets_with_fixed_pins", 0) + bool(fixed)
+            st["nets_with_extent_clamped_to_the_area"] = st.get("nets_with_extent_clamped_to_the_area", 0) + bool(fixed and (min(fixed) < amin or max(fixed) > amax))
+            if same and mode in (0, 2):
+                st["star_nets_whose_pin_count_a_merge_would_change"] = st.get("star_nets_whose_pin_count_a_merge_would_change", 0) + 1
+    if stats is not None:
+        stats["axis_%s" % "xy"[axis]] = stats.get("axis_%s" % "xy"[axis], 0) + 1
+    out.append(str(len(nets)))
+    out += nets
+    out += t[1 + r.p:]                                            # placement, penalty: verbatim
+    return ("SOLVE " + " ".join(head) + " " if head else "ASM ") + " ".join(out)
+
+
+def circ_note(case, conv):
+    return (" [net model built by NetModel::%sTopology from the circuit of the case line (%s); the equivalent addNet calls with EVERY pin of the "
+            "circuit counted are the line: %s]" % ("xy"[int(case.split()[5 if case.startswith("CSOLVE") else 1])], case.split()[0], conv[:400]))
+
+
+def check_circ(ctx, harness, driver, casm, csolve, stats):
+    """-> (concrete assembly violations, model/impl differences, solver violations), all reported on the CASM / CSOLVE case lines"""
+    cst = stats.setdefault("circuit_stream", {})
+    conv = [circ_convert(l, cst) for l in casm]
+    impl, model = [], []
+    if casm:
+        impl, _, _ = common.run_both([harness, "run"], None, casm, chunk=250)
+        model, _, _ = common.run_both([driver], None, conv, chunk=250)             # the extracted Coq model on the converted lines
+    sub = {"exact": 0, "toleranced": 0, "with_fractional_weight": 0, "nontrivial": set()}
+    concrete, diffs = check_asm(ctx, conv, impl, model, sub)
+    back = dict(zip(conv, casm))
+    concrete = [(back[l], why + circ_note(back[l], l), out) for l, why, out in concrete]
+    diffs = [(back[l], d + circ_note(back[l], l), out, f12) for l, d, out, f12 in diffs]
+    cst.update({"casm_lines": len(casm), "casm_compared_exactly": sub["exact"], "casm_compared_with_relative_1e-5": sub["toleranced"],
+                "casm_by_mode": {k: v for k, v in sub.items() if k.startswith("mode")}})
+    sconv = [circ_convert(l, cst) for l in csolve]
+    simpl = common.run_both([harness, "run"], None, csolve, chunk=200)[0] if csolve else []
+    ssub = {"solve_nondyadic_compared": 0, "solve_max_rel_dev": 0.0}
+    sback = dict(zip(sconv, csolve))
+    sbad = [(sback[l], why + circ_note(sback[l], l)) for l, why in check_solve(sconv, simpl, ssub, ctx, circ=True)]
+    cst.update({"csolve_lines": len(csolve), "csolve_by_kind": {k: v for k, v in ssub.items() if k.startswith("solve_kind")},
+                "csolve_least_squares_oracle": ssub.get("least_squares_oracle", {}), "csolve_max_rel_dev": ssub["solve_max_rel_dev"]})
+    return concrete, diffs, sbad
+
+
+
 def run(ctx):
     proof_ok, proof = common.proof_status(ctx, "C17")
     harness = common.build_harness("quad")
@@ -986,6 +1093,19 @@ def run(ctx):
     concrete, diffs = check_asm(ctx, asm, impl, model, stats)
     simpl, _, _ = common.run_both([harness, "run"], None, solve, chunk=200)
     sbad = check_solve(solve, simpl, stats, ctx)
+    # net models built from a CIRCUIT through x/yTopology: several pins on one movable cell (listed twice, aligned in one axis, all on one cell)
+    casm, csolve = common.corpus("C17", ("CASM ",)), common.corpus("C17", ("CSOLVE ",))
+    for s in seeds:
+        casm += common.harness_gen(harness, ["casm", s, (N_CASM_Q if q else 40000) // len(seeds)])
+        csolve += common.harness_gen(harness, ["csolve", s, (N_CSOLVE_Q if q else 12000) // len(seeds)])
+    cconcrete, cdiffs, csbad = check_circ(ctx, harness, driver, casm, csolve, stats)
+    concrete = cconcrete + concrete
+    diffs = cdiffs + diffs
+    cst = stats["circuit_stream"]
+    if not (cst.get("nets_with_a_movable_pin_listed_twice") and cst.get("nets_with_pins_of_one_cell_coinciding_in_this_axis_only")
+            and cst.get("nets_all_on_one_movable_cell_3plus_pins") and cst.get("csolve_least_squares_oracle", {}).get("perturbed_solutions_rejected")):
+        ctx.violation("the circuit-built net model stream does not contain the net shapes it is for: %s" % cst,
+                      {"broken": "harness/quad.cpp genCirc / checks/c17.py check_circ", "statistics": cst}, found_input=False)
 
     def is_far(l):                                                   # finding F30 (also finite garbage: the anchors are partly lost)
         t = l.split()
@@ -994,6 +1114,7 @@ def run(ctx):
         r = Rd(t[1:]); r.nx(); r.q(); r.nx()
         return far_unanchored(read_body(r))
     sbad = [(l, why) for l, why in sbad if not (is_far(l) and ctx.known_finding("F30"))]
+    sbad = csbad + sbad
     lso = stats.get("least_squares_oracle", {})
     if not lso.get("solutions_checked") or (lso.get("perturbed_solutions_tried") and not lso.get("perturbed_solutions_rejected")):
         # the residual oracle was never evaluated, or it accepts solutions moved by 1 % of the span: it decides nothing
@@ -1043,7 +1164,7 @@ def run(ctx):
     if diffs and not found:
         l, d, out, f12 = diffs[0]
         ctx.violation("correspondence Quad.v / QuadFloat.v <-> NetModel/MatrixCreator broken (%d of %d cases differ: %s); no input violating C17 found"
-                      % (len(diffs), len(asm) + finfo["cases"], d),
+                      % (len(diffs), len(asm) + len(casm) + finfo["cases"], d),
                       {"broken": "correspondence of coq/Quad.v / coq/QuadFloat.v (theorems of Properties_C17.v)",
                        "first_difference": {"case": l, "what": d, "implementation": out}}, found_input=False)
     if not proof_ok and not found:
@@ -1061,7 +1182,7 @@ def run(ctx):
                     "(sig_forall_dec, sig_not_dec, functional_extensionality_dep, classic) are trusted by the c17_float_* theorems",
                     "compiler: " + FLOAT_FLAGS],
                 "binary32_tie": finfo, "cg_scale_window_measured": cginfo,
-                "evaluations": len(asm) + len(solve) + len(place) + len(placecb),
+                "evaluations": len(asm) + len(solve) + len(place) + len(placecb) + len(casm) + len(csolve),
                 "distinct_nontrivial": len(nontriv),
                 "rule": "ASM case lines (distinct) with at least one net joining two different cells/fixed pins; all seven assembly entry points "
                         "(createStar(topo), B2B, Star, Clique, LightStar with placement, addBipoint, addClique), with and without addPenalty. "
@@ -1087,10 +1208,22 @@ def run(ctx):
                         "movable cells by -2..+3), setCellHeight (20 %: one <-> two row heights), setNetWeights (15 %: new weights times the factor) -- the "
                         "setters Circuit::checkNotInUse does not refuse during a run -- or reads only (20 %); the traces (every exposed placement, the "
                         "sizes set, the number of steps) and the result at the factors 4 and 1/8 must equal those at factor 1 exactly; measured: actions "
-                        "fired by kind, cases with lower-bound steps solved with a penalty AFTER a resize (a run fails when under a fifth of the cases)",
+                        "fired by kind, cases with lower-bound steps solved with a penalty AFTER a resize (a run fails when under a fifth of the cases).  "
+                        "NET MODELS BUILT FROM A CIRCUIT (distribution.circuit_stream; CASM / CSOLVE lines): a Circuit of 2..8 cells (a quarter fixed, "
+                        "widths 1..9, one or two row heights, N orientation) and 1..5 nets goes through NetModel::xTopology or yTopology -- the path "
+                        "placeGlobal uses -- and the net model is assembled by createStar(topo), B2B, Star, Clique, LightStar (with / without addPenalty) "
+                        "or solved (solveStar(params) 45 %, solve, solveWithPenalty, solveStar(pl), solveB2B, solve(solveStar)).  Net shapes: a pin of a "
+                        "movable cell listed twice; two or three pins of one cell with equal x offset and different y (they coincide in the x model only); "
+                        "equal y and different x; three to five pins of one cell mixing identical / aligned / distinct ones; ALL pins on one movable cell "
+                        "(finding F25); ordinary nets on distinct cells; duplicated / aligned pins on a FIXED cell (merged into the clamped extent); pin "
+                        "order shuffled in half.  The addNet calls the topology must make (ONE ENTRY PER PIN of the circuit; restated from the circuit in "
+                        "checks/c17.py circ_convert) are given to the extracted model of Quad.v: the C++ system is compared with it exactly / within 1e-5 "
+                        "like an ASM line, the normal-equation oracle (createStar) and the least-squares residual oracle (solveStar output) use the same "
+                        "pin lists; a run fails when a shape is absent from the stream",
                 "asm_cases_with_all_pins_of_a_3plus_pin_net_coincident": len(collapsed),
-                "samples": [asm[0][:300], asm[len(asm) // 2][:300], solve[0][:300], place[0][:300]],
+                "samples": [asm[0][:300], asm[len(asm) // 2][:300], solve[0][:300], place[0][:300], casm[0][:300], casm[len(casm) // 2][:300], csolve[0][:300]],
                 "distribution": stats,
+                "circuit_built_asm_cases": len(casm), "circuit_built_solve_cases": len(csolve),
                 "asm_cases": len(asm), "solve_cases": len(solve), "place_cases": len(place), "placecb_cases": len(placecb),
                 "compared_exactly": stats["exact"], "compared_with_relative_1e-5": stats["toleranced"],
                 "model_vs_impl_differences": len(diffs), "differences_explained_by_truncating_model_F12": nf12,
@@ -1131,6 +1264,16 @@ def replay(ctx, path):
         for _, d, _, f12 in diffs:
             print("model/impl difference:", d, "(C++ equals the truncating model: F12)" if f12 else "")
         return 1 if concrete or diffs else 0
+    if tag in ("CASM", "CSOLVE"):
+        cc, cd, cs = check_circ(ctx, harness, driver, [case] if tag == "CASM" else [], [case] if tag == "CSOLVE" else [], stats)
+        print("equivalent addNet calls (every pin counted):", circ_convert(case)[:1500])
+        for x in cc:
+            print("violation:", x[1])
+        for x in cs:
+            print("violation:", x[1])
+        for x in cd:
+            print("model/impl difference:", x[1])
+        return 1 if cc or cd or cs else 0
     if tag == "FASM":
         fdiffs, fconcrete = [], []
         info = float_tie(ctx, harness, 0, fdiffs, fconcrete, only=[case])
